@@ -138,12 +138,58 @@ CpsReplies ==    {[shape |-> "bulk", val |-> b] : b \in CpsBulks}
             \cup {[shape |-> "nested", val |-> b] : b \in {Magic, Magic \o "{00}\r"}}
             \cup {[shape |-> "simple", val |-> Magic], [shape |-> "error", val |-> Magic]}
 
+(* ---- well-formed requests with adversarial ARGUMENT bytes (side client).  The frames above are malformed; these are    *)
+(* not: they pass the parser and reach the code behind it - key routing (hash tag, slot), the splitting of MGET / MSET /  *)
+(* DEL / EXISTS into children, EVAL's key position, the SCAN cursor the proxy parses and rewrites itself, the argument    *)
+(* counts every handler indexes.  One vector = one connection that sends the requests of the class back to back; the      *)
+(* reaction is the same as everywhere: one reply per request or the connection closed, the process lives, others served.  *)
+(* {00} {ff} stand for the bytes 0x00 0xff, {fill:n} for n filler bytes (replaced by the replayer).                       *)
+BraceAlpha == {"{", "}", "x"}
+B1 == BraceAlpha
+B2 == {a \o b : a \in B1, b \in BraceAlpha}
+B3 == {a \o b : a \in B2, b \in BraceAlpha}
+B4 == {a \o b : a \in B3, b \in BraceAlpha}
+\* every key over the brace alphabet up to length 4 (every order of the braces), and a few longer ones
+BraceKeys == B1 \cup B2 \cup B3 \cup B4 \cup {"a}b{c}", "{a}{b}", "x{y}z", "}x{y}z", "{x}}{", "{{x}}", "}}}{{{", "{}{x}"}
+ByteKeys  == {" ", "\r", "\n", "\t", "{00}", "{ff}", "*", "$", "-", "+", ":", "0"}
+CtlKeys   == {"a\r\nb", "\r\n", "a\nb", "a{00}b", "{00}{00}", "{" \o "\r\n" \o "}", "{{00}}", "a b", " a", "a ", "GET",
+              "*1\r\n$4\r\nPING\r\n", "{ff}{ff}{ff}{ff}"}
+LongNs    == {1024, 70000, 1048576}
+Fill(n)   == "{fill:" \o ToString(n) \o "}"
+LongKeys  == UNION {{Fill(n), "{" \o Fill(n) \o "}", "}" \o Fill(n) \o "{", "{a}" \o Fill(n), Fill(n) \o "{a}"} : n \in LongNs}
+\* the requests a key goes through: routed by itself, as a child in every position of the commands the proxy splits, as EVAL's key
+KeyReqs(k) == << <<"GET", k>>, <<"SET", k, "v">>, <<"MGET", k, "o">>, <<"MGET", "o", k>>, <<"MSET", k, "v", "o", "v">>,
+                 <<"MSET", "o", "v", k, "v">>, <<"DEL", "o", k>>, <<"EXISTS", k, k>>, <<"EVAL", "return 1", "1", k>>, <<"HSET", k, k, k>> >>
+Req(class, name, reqs) == [class |-> class, name |-> name, reqs |-> reqs]
+KeyVecs ==    {Req("brace", k, KeyReqs(k)) : k \in BraceKeys}
+         \cup {Req("empty", "", KeyReqs(""))}
+         \cup {Req("byte", k, KeyReqs(k)) : k \in ByteKeys}
+         \cup {Req("ctl", k, KeyReqs(k)) : k \in CtlKeys}
+         \cup {Req("long", k, KeyReqs(k)) : k \in LongKeys}
+\* SCAN: the cursor is  node index (16 bit) * 2^48 + node cursor ; the proxy parses it as a signed 64 bit number
+Cursors == {"-1", "0", "1", "281474976710655", "281474976710656", "281474976710657", "562949953421312", "18446462598732840960",
+            "9223372036854775807", "9223372036854775808", "-9223372036854775808", "18446744073709551615", "18446744073709551616",
+            "abc", "", "1e3", "+1", "0x10", " 1", "1 ", "00000000000000000001", "{00}", "-"}
+ScanArgs == {"-1", "0", "abc", "9223372036854775808", ""}
+NumberVecs ==    {Req("scan-cursor", c, << <<"SCAN", c>>, <<"SCAN", c, "COUNT", "10">>, <<"SCAN", c, "MATCH", "*", "COUNT", "1">> >>) : c \in Cursors}
+            \cup {Req("scan-count", x, << <<"SCAN", "0", "COUNT", x>>, <<"SCAN", "0", "MATCH", x>>, <<"SCAN", "0", x>> >>) : x \in ScanArgs}
+\* argument counts at and below what the handlers index
+ArityReqs == { <<"GET">>, <<"SET">>, <<"SET", "k">>, <<"MGET">>, <<"MSET">>, <<"MSET", "k">>, <<"MSET", "k", "v", "k2">>, <<"DEL">>, <<"EXISTS">>,
+               <<"EVAL">>, <<"EVAL", "s">>, <<"EVAL", "s", "1">>, <<"EVAL", "s", "abc", "k">>, <<"EVAL", "s", "-1", "k">>, <<"EVAL", "s", "0">>,
+               <<"SCAN">>, <<"HOTKEY">>, <<"PING", "x", "y">>, <<"INFO", "x">>, <<"SELECT">>, <<"TIME", "x">>, <<"">>, <<"", "k">>,
+               <<"get">>, <<"GeT", "k", "extra">>, <<"HSCAN", "k">>, <<"SORT">>, <<"ZUNIONSTORE">> }
+JoinSp(t) == IF Len(t) = 1 THEN t[1] ELSE t[1] \o " " \o t[2] \o (IF Len(t) > 2 THEN " .." \o ToString(Len(t)) ELSE "")
+ArityVecs == {Req("arity", JoinSp(t), << t, <<"PING">> >>) : t \in ArityReqs}
+
 (* ---- the vectors *)
 Vec(side, ctx, form, payload) == [side |-> side, ctx |-> ctx, form |-> form, payload |-> payload]
 
 ClientVecs == {Vec("client", "raw", "bytes", g) : g \in Generic} \cup {Vec("client", "raw", "truncated", g) : g \in Truncated}
               \cup {Vec("client", "raw", "big", b) : b \in Big}
               \cup {Vec("client", "raw", "big", r) : r \in ClientRuns}
+              \cup {Vec("client", "key", "request", r) : r \in KeyVecs}
+              \cup {Vec("client", "number", "request", r) : r \in NumberVecs}
+              \cup {Vec("client", "arity", "request", r) : r \in ArityVecs}
 BackendVecs ==
        {Vec("backend", "keyed", "bytes", g) : g \in Generic}
   \cup {Vec("backend", "keyed", "truncated", g) : g \in Truncated}
@@ -173,12 +219,15 @@ Next == /\ i <= Len(VecSeq) /\ PrintT("@@VEC " \o ToJson(VecSeq[i])) /\ i' = i +
 Spec == Init /\ [][Next]_i
 
 \* every parsing context of the proxy is covered by at least one vector of every form it can meet
-Contexts == {"raw", "keyed", "keyed-child", "keyed-cps", "cluster-nodes", "scan", "readonly", "asking"}
+Contexts == {"raw", "key", "number", "arity", "keyed", "keyed-child", "keyed-cps", "cluster-nodes", "scan", "readonly", "asking"}
 AllContextsCovered == \A c \in Contexts : \E v \in AllVecs : v.ctx = c
 \* every class of run unit of DecodeStack.tla is sent by a client and by a backend with a count beyond every declared limit
 \* every context in which the proxy interprets an error reply meets a first word that is a verb only under Unicode folding
 FoldCovered == \A c \in {"keyed", "keyed-child", "cluster-nodes", "scan", "readonly", "asking"} :
                  \E v \in AllVecs : v.ctx = c /\ v.form = "error" /\ v.payload = "A" \o LongS \o "K 866 {ADDR}"
+\* the brace alphabet is complete up to length 4: every order of an opening and a closing brace around zero, one or two fillers
+BracesCovered == /\ Cardinality(B1 \cup B2 \cup B3 \cup B4) = 3 + 9 + 27 + 81
+                 /\ \A k \in {"}{", "}{x}", "a}b{c}", "{}", "{x}", "x}{x"} : \E v \in AllVecs : v.ctx = "key" /\ v.payload.name = k
 RunsCovered == /\ \A cl \in {"blank", "empty", "cmd"} : \E r \in ClientRuns : r.class = cl /\ r.n >= 100000
                /\ \E r \in BackendRuns : r.class = "blank" /\ r.n >= 1000000
 =============================================================================
